@@ -317,6 +317,10 @@ def run(ctx):
     ctx.extra["single_fault_cases"] = len(tasks)
     if thorough:
         firsts = [(t[0], t[1], t[2], t[3]) for t in tasks if t[1] == 0 or t[0] in (0, 1)]
+    else:
+        # quick: a second fault during recovery only after the first fault left a damaged LINK file (string scenario, no cache)
+        firsts = [(t[0], t[1], t[2], t[3]) for t in tasks if t[0] == 0 and t[1] == 0 and t[5].endswith("-link") and t[3].startswith("crash_") and t[3] != "crash_before"]
+    if firsts:
         p2 = pmap(_p2task, firsts, chunksize=4)
         t2 = []
         for (si, cache, idx, kind), log in p2:
